@@ -34,6 +34,7 @@ func run(c *hlib.Ctx) {
 	runPolyVerts(c)
 	runPolyRect(c)
 	runShells(c)
+	runRsProg(c) // last: keeps the random streams of the earlier kinds unchanged
 }
 
 // ---------------------------------------------------------------- points and adapters
